@@ -118,3 +118,33 @@ Theorem witness_rooted_tip_facts :
   = [(3, [1], 2, 0, false, true); (3, [1], 2, 0, true, true)] /\
   inner_branch_count witness_rooted_tip = 1 /\ inner_root_kids witness_rooted_tip = 1.
 Proof. vm_compute. repeat split. Qed.
+
+(** * the proposal object and its [applied] flag; proposals kept and used later *)
+Theorem object_sequences t r :
+  wf t = true -> In r (nni_list t) ->
+  exists t1, apply r t = Some t1 /\
+    run_ops r [OpApply; OpUndo; OpApply; OpUndo] (false, t) = Some ([t1; t; t1; t], (false, t)) /\
+    run_ops r [OpApply; OpApply; OpUndo; OpUndo] (false, t) = Some ([t1; t1; t; t], (false, t)) /\
+    run_ops r [OpUndo; OpApply; OpUndo] (false, t) = Some ([t; t1; t], (false, t)).
+Proof.
+  intros W I. destruct (undo_apply_list t r W I) as (t1 & Ha & Hu). exists t1. split; [exact Ha|].
+  repeat split; cbn -[apply undo]; repeat (rewrite ?Ha, ?Hu; cbn -[apply undo]); reflexivity.
+Qed.
+
+Lemma pick_valid t order : forall rs, Model.NNI.pick t order = Some rs -> Forall (fun r => valid r t) rs.
+Proof.
+  unfold Model.NNI.pick. induction order as [|i l IH]; intros rs H.
+  - inversion H. constructor.
+  - destruct (nth_error (nni_list t) i) as [r|] eqn:E; [|discriminate].
+    match type of H with context [match ?g with Some _ => _ | None => _ end] => destruct g as [rl|] eqn:G end;
+      [|discriminate].
+    inversion H; subst. constructor; [|now apply IH].
+    apply nni_list_valid. eapply nth_error_In; eauto.
+Qed.
+
+(** proposals kept by the caller: in any order, with repetitions, each gives [apply r t] of
+    the original tree and the tree is left as it was *)
+Theorem kept_proposals t order rs :
+  wf t = true -> Model.NNI.pick t order = Some rs ->
+  exists l, enumerate rs t = Some (l, t) /\ Forall2 (fun r t' => apply r t = Some t') rs l.
+Proof. intros W H. apply enumerate_valid; auto. eapply pick_valid; eauto. Qed.
